@@ -298,6 +298,8 @@ def check_views(r, src, soup, is_fresh_parse=True):
                     r.fail(Failure('C04', 'parents-do-not-reach-origin', src,
                                    str(d)[:60], str(node)[:60]))
                     break
+    if is_fresh_parse and root.parent is not None:
+        r.fail(Failure('C04', 'parent', src, str(root.parent)[:60], 'None (the root has no parent)'))
     whole = ''.join(str(x) for x in root.expr.all)
     if whole != str(root) or (is_fresh_parse and src is not None and whole != src):
         r.fail(Failure('C04', 'root-all-concat', src, whole, src))
@@ -325,6 +327,18 @@ def _c04_chunk(cases):
 def oracle_C04(tier):
     n, depth = (250, 3) if tier == 'quick' else (2500, 5)
     docs = [s for s, _ in inputs.grammar_docs('C04', n, depth)] + inputs.repo_samples()
+    # documents that END in a command without arguments followed by blanks
+    # (the root's content list must still concatenate to the whole document)
+    for d in docs[:n // 5]:
+        docs += [d + '\\endinput\n', d + ' \\x \n ', d + '\\x{a}\n']
+    docs += ['\\chapter{One}\nSome \\emph{text}.\n\\endinput\n', '\\title{T}\n\\maketitle\n', '\\x ', '\\x\n']
+    # commands named like attributes of the node API: navigation must not be
+    # confused with a search for such a command (the root has no parent)
+    for nm in ('parent', 'expr', 'name', 'args', 'contents', 'children', 'text', 'position', 'string',
+               'all', 'descendants', 'count', 'find'):
+        docs += ['\\begin{center}\n\\person{Ada}\n\\begin{itemize}\n\\item \\%s{B} and \\%s{A}\n\\item \\child{n}\n'
+                 '\\end{itemize}\n\\end{center}\n' % (nm, nm),
+                 '\\begin{%s}\\node{x} \\child{\\node{y}}\\end{%s} after' % (nm, nm)]
     res = Result('oracle-C04')
     for r in pmap(_c04_chunk, chunked(docs, NPROC * 2)):
         res.merge(r)
